@@ -165,7 +165,7 @@ func (b *Browser) Navigate(label, scheme, host, path string, maxHops int) *NavRe
 			cs, ch, cp, _ := splitURL(f.Spec.CallbackURI())
 			scheme, host = cs, ch
 			// the provider appends code and state to the registered redirect URI
-			path = cp + "?code=" + qEsc(ar.Code) + "&state=" + qEsc(ar.Param("state"))
+			path = cp + cbSep(cp) + "code=" + qEsc(ar.Code) + "&state=" + qEsc(ar.Param("state"))
 			label = label + ">cb"
 		case "redirect-url":
 			s, h, p, ok := splitURL(rec.Location)
@@ -205,4 +205,11 @@ func (w *World) filterForLocation(loc string) *FilterRT {
 		}
 	}
 	return nil
+}
+
+func cbSep(cp string) string {
+	if strings.Contains(cp, "?") {
+		return "&"
+	}
+	return "?"
 }
